@@ -185,6 +185,47 @@ Theorem C15_binary64_default_count_last_is_stop_partial :
 Proof. exact binary64_default_count_last_is_stop. Qed.
 Print Assumptions C15_binary64_default_count_last_is_stop_partial.
 
+(* ---- closed form of the stall guard (binary64) --------------------------------------------------
+   A finite normal number (>= 2^-1022) times a factor > 1 is strictly larger after rounding
+   (or overflows to +inf): x*f >= x + x*2^-52 >= x + ulp(x) = succ x. *)
+Theorem C15_binary64_normal_strictly_grows :
+  forall x f, PrimFloat.is_finite x = true -> PrimFloat.leb minnorm x = true ->
+    PrimFloat.ltb PrimFloat.one f = true -> PrimFloat.ltb x (PrimFloat.mul x f) = true.
+Proof. exact prim_strict_grow. Qed.
+Print Assumptions C15_binary64_normal_strictly_grows.
+
+(* so the ideal sequence never stalls when start is zero or normal ... *)
+Theorem C15_binary64_no_stall_zero_or_normal :
+  forall start stop factor, valid prim_ops start stop factor = true ->
+    PrimFloat.ltb PrimFloat.one factor = true ->
+    PrimFloat.eqb start PrimFloat.zero = true \/ PrimFloat.leb minnorm start = true ->
+    forall n, stalls prim_ops stop factor start n = false.
+Proof. exact no_stall_zero_or_normal. Qed.
+Print Assumptions C15_binary64_no_stall_zero_or_normal.
+
+(* ... the guard of the open finding is confined to 0 < start < 2^-1022 (subnormal start) ... *)
+Theorem C15_binary64_known_guard_is_subnormal_start :
+  forall p n, spec_known prim_ops p n = true ->
+    PrimFloat.ltb PrimFloat.zero (p_start p) = true /\ PrimFloat.ltb (p_start p) minnorm = true.
+Proof. exact known_guard_is_subnormal_start. Qed.
+Print Assumptions C15_binary64_known_guard_is_subnormal_start.
+
+(* ... and the default-count clause holds in FULL for every start that is zero or normal:
+   valid parameters, factor > 1, no jitter => for some fuel the model of backoff() returns a
+   list satisfying every clause on the values and ending at stop. *)
+Theorem C15_binary64_default_count_last_is_stop :
+  forall start stop factor j take,
+    let p := mkP ApiList start stop CNone factor j take in
+    must_raise prim_ops p = false -> jitter_off prim_ops j = true ->
+    PrimFloat.ltb PrimFloat.one factor = true ->
+    PrimFloat.eqb start PrimFloat.zero = true \/ PrimFloat.leb minnorm start = true ->
+    exists fuel,
+      let o := run prim_ops p fuel [] in
+      o_end o = EStop /\ values_ok prim_ops p (o_vals o) = true /\
+      last_is prim_ops stop (o_vals o) = true.
+Proof. exact binary64_default_count_normal_start. Qed.
+Print Assumptions C15_binary64_default_count_last_is_stop.
+
 (* ---- the hypotheses are inhabited ------------------------------------------------------ *)
 (* the three law records are jointly satisfiable (exact integer arithmetic) *)
 Example C15_laws_satisfiable : order_laws z_ops /\ grow_laws z_ops /\ jitter_laws z_ops.
